@@ -59,7 +59,7 @@ def extend(g, api):
            r'conn\.wake\(\); Poll::Ready\(Ok\(result\)\)'])
     shape('c18StoppedRegistersUnderLock', f'{send_rs}::stopped (lock; check; stopped map entry; Notified created before the lock is released; await outside)',
           lambda: body(send_rs, 'stopped'),
-          [r'loop \{', r'let notify; \{ let mut conn = conn\.state\.lock\("SendStream::stopped"\); if let Some\(output\) = send_stream_stopped\(&mut conn, stream, is_0rtt\) \{ return output; \} notify = conn\.stopped\.entry\(stream\)\.or_default\(\)\.clone\(\); notify\.notified\(\) \} \.await'])
+          [r'loop \{', r'let notify; \{ let mut conn = conn\.state\.lock\("SendStream::stopped"\); if let Some\(output\) = send_stream_stopped\(&mut conn, stream, is_0rtt\) \{ return output; \} if locally_reset\.load\(Ordering::Relaxed\) \{ return Ok\(None\); \} notify = conn\.stopped\.entry\(stream\)\.or_default\(\)\.clone\(\); notify\.notified\(\) \} \.await'])
     NOTIFY_LOOP = r'loop \{ match notify\.as_mut\(\)\.poll\(ctx\) \{ Poll::Pending => return Poll::Pending, Poll::Ready\(\(\)\) => (\{ )?notify\.set\('
     shape('c18OpenRegistersUnderLock', f'{conn_rs}::poll_open (lock; error / open check; Notified polled while the lock is held)',
           lambda: body(conn_rs, 'poll_open'),
@@ -127,18 +127,64 @@ def extend(g, api):
     shape('c18EndpointDriverWakes', f'{ep_rs}::EndpointDriver::poll / handle_events (incoming and idle notifications; termination condition)', lambda: _norm(src(ep_rs)),
           [r'impl Future for EndpointDriver \{', r'if !endpoint\.recv_state\.incoming\.is_empty\(\) \{ self\.0\.shared\.incoming\.notify_waiters\(\); \}',
            r'if self\.0\.shared\.ref_count\.load\(Ordering::Relaxed\) == 0 && endpoint\.recv_state\.connections\.is_empty\(\) \{ Poll::Ready\(Ok\(\(\)\)\) \}',
-           r'impl Drop for EndpointDriver \{', r'endpoint\.driver_lost = true; self\.0\.shared\.incoming\.notify_waiters\(\);', r'endpoint\.recv_state\.connections\.senders\.clear\(\);',
+           r'impl Drop for EndpointDriver \{', r'endpoint\.driver_lost = true; self\.0\.shared\.incoming\.notify_waiters\(\);', r'endpoint\.recv_state\.connections\.senders\.clear\(\); self\.0\.shared\.idle\.notify_waiters\(\);',
            r'if event\.is_drained\(\) \{ self\.recv_state\.connections\.senders\.remove\(&ch\); if self\.recv_state\.connections\.is_empty\(\) \{ shared\.idle\.notify_waiters\(\); \} \}'])
 
     # ---- drops: registration removed, implicit finish / stop / close
     shape('c18RecvDropRemovesRegistration', f'{recv_rs}::Drop for RecvStream / stop (blocked_readers.remove; implicit stop; wake the driver)', lambda: _norm(src(recv_rs)),
           [r'pub fn stop\(&mut self, error_code: VarInt\)', r'conn\.inner\.recv_stream\(self\.stream\)\.stop\(error_code\)\?; conn\.wake\(\); self\.all_data_read = true;', r'conn\.blocked_readers\.remove\(&self\.stream\);',
-           r'impl Drop for RecvStream \{', r'let mut conn = self\.conn\.state\.lock\("RecvStream::drop"\);', r'conn\.blocked_readers\.remove\(&self\.stream\);',
+           r'impl Drop for RecvStream \{', r'let mut conn = self\.conn\.state\.lock\("RecvStream::drop"\); if self\.is_0rtt && conn\.check_0rtt\(\)\.is_err\(\) \{ return; \} conn\.blocked_readers\.remove\(&self\.stream\); if conn\.error\.is_some\(\) \{ return; \}',
            r'let _ = conn\.inner\.recv_stream\(self\.stream\)\.stop\(0u32\.into\(\)\); conn\.wake\(\);'])
     shape('c18SendDropRemovesRegistration', f'{send_rs}::Drop for SendStream (blocked_writers.remove; implicit finish or reset; wake the driver)', lambda: _norm(src(send_rs)),
-          [r'impl Drop for SendStream \{', r'let mut conn = self\.conn\.state\.lock\("SendStream::drop"\);', r'conn\.blocked_writers\.remove\(&self\.stream\);',
+          [r'impl Drop for SendStream \{', r'let mut conn = self\.conn\.state\.lock\("SendStream::drop"\); if self\.is_0rtt && conn\.check_0rtt\(\)\.is_err\(\) \{ return; \} conn\.blocked_writers\.remove\(&self\.stream\); if conn\.error\.is_some\(\) \{ return; \}',
            r'match conn\.inner\.send_stream\(self\.stream\)\.finish\(\) \{ Ok\(\(\)\) => conn\.wake\(\), Err\(FinishError::Stopped\(reason\)\) => \{ if conn\.inner\.send_stream\(self\.stream\)\.reset\(reason\)\.is_ok\(\) \{ conn\.wake\(\); \} \}'])
     shape('c18LastHandleCloses', f'{conn_rs}::Drop for ConnectionRef / {ep_rs}::Drop for EndpointRef (last handle: implicit close / driver woken)', lambda: _norm(src(conn_rs)) + ' ##### ' + _norm(src(ep_rs)),
           [r'impl Drop for ConnectionRef \{ fn drop\(&mut self\) \{ if self\.shared\.ref_count\.fetch_sub\(1, Ordering::Relaxed\) > 1 \{ return; \}', r'if !conn\.inner\.is_closed\(\) \{ conn\.implicit_close\(&self\.shared\); \}',
            r'impl Drop for State \{ fn drop\(&mut self\) \{ if !self\.inner\.is_drained\(\) \{ let _ = self \.endpoint_events \.send\(\(self\.handle, EndpointEvent::drained\(\)\)\); \} \} \}',
            r'#####', r'impl Drop for EndpointRef \{ fn drop\(&mut self\) \{ if self\.shared\.ref_count\.fetch_sub\(1, Ordering::Relaxed\) > 1 \{ return; \}', r'if let Some\(task\) = endpoint\.driver\.take\(\) \{ task\.wake\(\); \}'])
+
+    # ---- the connection driver ends on a fatal send error: everything that waits on the connection is failed first
+    shape('c18ConnDriverIoErrorTerminates', f'{conn_rs}::ConnectionDriver::poll (drive_transmit error: terminate, then end the driver)', lambda: _norm(src(conn_rs)),
+          [r'impl Future for ConnectionDriver \{', r'let mut keep_going = match conn\.drive_transmit\(cx\) \{ Ok\(keep_going\) => keep_going, Err\(e\) => \{ conn\.terminate\( ConnectionError::TransportError\(TransportError::new\( TransportErrorCode::INTERNAL_ERROR,',
+           r'&self\.0\.shared, \); return Poll::Ready\(Err\(e\)\); \} \};'])
+    # ---- handles of a rejected 0-RTT stream: every operation tests the rejection before it touches the stream id
+    Z = r'if self\.is_0rtt && conn\.check_0rtt\(\)\.is_err\(\) \{ return '
+    shape('c18RejectedHandleOpsReport', f'{send_rs} / {recv_rs}: write, finish, reset, set_priority, priority, stopped, read, stop, received_reset test check_0rtt first', lambda: _norm(src(send_rs)) + ' ##### ' + _norm(src(recv_rs)),
+          [r'let mut conn = self\.conn\.state\.lock\("SendStream::poll_write"\); if self\.is_0rtt \{ conn\.check_0rtt\(\) \.map_err\(\|\(\)\| WriteError::ZeroRttRejected\)\?; \}',
+           r'let mut conn = self\.conn\.state\.lock\("finish"\); ' + Z + r'Err\(ClosedStream::default\(\)\); \}',
+           r'let mut conn = self\.conn\.state\.lock\("SendStream::reset"\); ' + Z + r'Ok\(\(\)\); \}',
+           r'let mut conn = self\.conn\.state\.lock\("SendStream::set_priority"\); ' + Z + r'Err\(ClosedStream::default\(\)\); \}',
+           r'let mut conn = self\.conn\.state\.lock\("SendStream::priority"\); ' + Z + r'Err\(ClosedStream::default\(\)\); \}',
+           r'fn send_stream_stopped\(', r'\{ if is_0rtt && conn\.check_0rtt\(\)\.is_err\(\) \{ return Some\(Err\(StoppedError::ZeroRttRejected\)\); \}',
+           r'#####',
+           r'let mut conn = self\.conn\.state\.lock\("RecvStream::stop"\); ' + Z + r'Ok\(\(\)\); \}',
+           r'let mut conn = self\.conn\.state\.lock\("RecvStream::reset"\); ' + Z + r'Poll::Ready\(Err\(ResetError::ZeroRttRejected\)\); \}',
+           r'let mut conn = self\.conn\.state\.lock\("RecvStream::poll_read"\); if self\.is_0rtt \{ conn\.check_0rtt\(\)\.map_err\(\|\(\)\| ReadError::ZeroRttRejected\)\?; \}'])
+
+    # ---- behaviour READ from the source (0/1), used by the model's `appSet`, `lose` and `dropRejected` steps: the
+    # theorems over all interleavings go through only for 1
+    def flag(lean, anchor, get, patterns):
+        def f():
+            t = get()
+            pos = 0
+            for p in patterns:
+                m = re.compile(p).search(t, pos)
+                if not m:
+                    return 0
+                pos = m.end()
+            return 1
+        g.nat(lean, anchor, f)
+    flag('c18ResetNotifiesStopped', f'{send_rs}::reset sets the flag that stopped() tests under the lock and notifies-and-removes the stream\'s `stopped` entry (1) or not (0)',
+         lambda: body(send_rs, 'reset') + ' ##### ' + body(send_rs, 'stopped'),
+         [r'conn\.inner\.send_stream\(self\.stream\)\.reset\(error_code\)\?; self\.locally_reset\.store\(true, Ordering::Relaxed\); if let Some\(notify\) = conn\.stopped\.remove\(&self\.stream\) \{ notify\.notify_waiters\(\); \}',
+          r'#####', r'let locally_reset = self\.locally_reset\.clone\(\);',
+          r'if let Some\(output\) = send_stream_stopped\(&mut conn, stream, is_0rtt\) \{ return output; \} if locally_reset\.load\(Ordering::Relaxed\) \{ return Ok\(None\); \}'])
+    drv_drop = lambda: body(ep_rs, 'drop', 'impl Drop for EndpointDriver')
+    flag('c18EndpointDriverDropNotifiesIncoming', f'{ep_rs}::Drop for EndpointDriver notifies `incoming` after setting driver_lost (1) or not (0)', drv_drop,
+         [r'endpoint\.driver_lost = true;', r'self\.0\.shared\.incoming\.notify_waiters\(\);'])
+    flag('c18EndpointDriverDropNotifiesIdle', f'{ep_rs}::Drop for EndpointDriver notifies `idle` after clearing the connection table (1) or not (0)', drv_drop,
+         [r'endpoint\.recv_state\.connections\.senders\.clear\(\);', r'self\.0\.shared\.idle\.notify_waiters\(\);'])
+    flag('c18RejectedDropKeepsWaker', f'{send_rs} / {recv_rs}: Drop tests the 0-RTT rejection before blocked_writers/blocked_readers.remove (1) or after (0)',
+         lambda: body(send_rs, 'drop', 'impl Drop for SendStream') + ' ##### ' + body(recv_rs, 'drop', 'impl Drop for RecvStream'),
+         [r'let mut conn = self\.conn\.state\.lock\("SendStream::drop"\); if self\.is_0rtt && conn\.check_0rtt\(\)\.is_err\(\) \{ return; \} conn\.blocked_writers\.remove\(&self\.stream\);',
+          r'#####', r'let mut conn = self\.conn\.state\.lock\("RecvStream::drop"\); if self\.is_0rtt && conn\.check_0rtt\(\)\.is_err\(\) \{ return; \} conn\.blocked_readers\.remove\(&self\.stream\);'])
